@@ -12,7 +12,7 @@ func TestC09(t *testing.T) {
 	nrun.Main(t, &nrun.Check{
 		ID: "C09", TestName: "TestC09", Plans: oscen.Plans(),
 		QuickTime: 110 * time.Second, ThorTime: 15 * time.Minute,
-		Rule: "engine N: every order of application calls (five commits issued in program order by one group member: 2x CommitOffsets async, CommitOffsetsSync, CommitRecords, CommitUncommittedOffsets; in the C-rebalance variants a second member joining the group and a forced rejoin of the first, cooperative and eager; in C-cancel-queued three asynchronous commits of which the second has its context cancelled by a separate thread), request/response frame deliveries, timer ticks and injected faults on OffsetCommit (stalled request, COORDINATOR_LOAD_IN_PROGRESS, NOT_COORDINATOR, UNKNOWN_TOPIC_OR_PARTITION, connection killed before / after the broker handled it) within k deviations of the default order; distinct = distinct terminal outcomes (per-call result, wire order of attributed OffsetCommit requests, broker offsets, CommittedOffsets view)",
+		Rule: "engine N: generated family CG = every (configuration, three-symbol commit script, second-thread action and gate, first coordinator answer) combination on the default schedule (thorough: plus every single deviation, time-capped); hand-written scenarios: every order of application calls (five commits issued in program order by one group member: 2x CommitOffsets async, CommitOffsetsSync, CommitRecords, CommitUncommittedOffsets; in the C-rebalance variants a second member joining the group and a forced rejoin of the first, cooperative and eager; in C-cancel-queued three asynchronous commits of which the second has its context cancelled by a separate thread), request/response frame deliveries, timer ticks and injected faults on OffsetCommit (stalled request, COORDINATOR_LOAD_IN_PROGRESS, NOT_COORDINATOR, UNKNOWN_TOPIC_OR_PARTITION, connection killed before / after the broker handled it) within k deviations of the default order; distinct = distinct terminal outcomes (per-call result, wire order of attributed OffsetCommit requests, broker offsets, CommittedOffsets view)",
 		Assume: []string{"kfake is the group coordinator", "synctests build of xsync (C31 covers the channel mutexes)", "a request the client abandons by closing its connection is never delivered afterwards (proxy model)", "goroutine micro-interleavings inside one event are the Go runtime's"},
 	})
 }
